@@ -17,7 +17,10 @@ import (
 	"testing"
 	"time"
 
+	"github.com/6tail/lunar-go/FotoUtil"
 	"github.com/6tail/lunar-go/HolidayUtil"
+	"github.com/6tail/lunar-go/LunarUtil"
+	"github.com/6tail/lunar-go/ShouXingUtil"
 	"github.com/6tail/lunar-go/SolarUtil"
 	"github.com/6tail/lunar-go/calendar"
 	"pgregory.net/rapid"
@@ -47,7 +50,20 @@ type call struct {
 }
 
 var callKinds = []string{"SolarToLunar", "NewLunar", "LunarYearTable", "LunarMonthNext", "BadLunarMonth", "BadLunarDay", "BadSolar", "FarYear", "ReverseBaZi", "Holiday", "EdgeYear", "TermTable", "SolarWeekWalk",
-	"Fortune", "EightCharFull", "TaoFoto", "CivilUnits", "HolidayViews", "TwiceInARow", "AncientYear"}
+	"Fortune", "EightCharFull", "TaoFoto", "CivilUnits", "HolidayViews", "TwiceInARow", "AncientYear", "UtilDecoders", "UtilBadArgs", "AstroDirect", "CivilUtil"}
+
+// small pools: direct utility calls draw their pillar indices from a few values so that the same (or a neighbouring)
+// table slot is asked by different calls of one history
+var fewPillars = []int{0, 1, 2, 58, 59, 11, 30}
+var badNames = []string{"", "已巳", "XX", "甲", "子甲", "甲子 "}
+
+func listStr(l *list.List) string {
+	var ss []string
+	for e := l.Front(); e != nil; e = e.Next() {
+		ss = append(ss, fmt.Sprint(e.Value))
+	}
+	return strings.Join(ss, ",")
+}
 
 // ancientYear maps a generated year to an astronomical year <= 0 the library still computes (its new-moon and
 // term tables reach back to -721 and -221): the first table intervals, and anything in -799..0.
@@ -205,6 +221,45 @@ func run(c call) (out string) {
 			fmt.Fprintf(&sb, "%.5f;", jd)
 		}
 		return sb.String()
+	case "UtilDecoders": // the exported table decoders, called directly with valid pillars
+		jz := LunarUtil.JIA_ZI
+		a, b := jz[fewPillars[ref.Mod(y, len(fewPillars))]], jz[fewPillars[ref.Mod(c.B+c.C, len(fewPillars))]]
+		if c.H%3 == 0 {
+			a = jz[59] // the last pair of the cycle as month / day pillar
+		}
+		mm := []int{1, -1, 12, -12, 6, 2}[ref.Mod(c.C, 6)]
+		return strings.Join([]string{"yi:" + listStr(LunarUtil.GetDayYi(a, b)), "ji:" + listStr(LunarUtil.GetDayJi(a, b)), "tyi:" + listStr(LunarUtil.GetTimeYi(a, b)), "tji:" + listStr(LunarUtil.GetTimeJi(a, b)),
+			"js:" + listStr(LunarUtil.GetDayJiShen(mm, b)), "xs:" + listStr(LunarUtil.GetDayXiongSha(mm, b)), LunarUtil.GetXun(a), LunarUtil.GetXunKong(b), fmt.Sprint(LunarUtil.GetXunIndex(a), LunarUtil.GetJiaZiIndex(b)),
+			FotoUtil.GetXiu(mm, 1+ref.Mod(c.C, 30)), fmt.Sprint(LunarUtil.GetTimeZhiIndex(fmt.Sprintf("%02d:%02d", c.H, c.C)))}, "|")
+	case "UtilBadArgs": // the same decoders with names that are not pillars (they answer 无 / -1, or panic: recovered)
+		jz := LunarUtil.JIA_ZI
+		bad := badNames[ref.Mod(y+c.C, len(badNames))]
+		good := jz[fewPillars[ref.Mod(c.B, len(fewPillars))]]
+		var parts []string
+		for _, f := range []func() string{
+			func() string { return listStr(LunarUtil.GetDayYi(bad, good)) }, func() string { return listStr(LunarUtil.GetDayJi(bad, good)) },
+			func() string { return listStr(LunarUtil.GetDayYi(good, bad)) }, func() string { return listStr(LunarUtil.GetTimeYi(bad, good)) },
+			func() string { return listStr(LunarUtil.GetTimeJi(good, bad)) }, func() string { return listStr(LunarUtil.GetDayJiShen(0, good)) },
+			func() string { return listStr(LunarUtil.GetDayXiongSha(13, bad)) }, func() string { return fmt.Sprint(LunarUtil.GetJiaZiIndex(bad)) },
+			func() string { return LunarUtil.GetXun(bad) }, func() string { return FotoUtil.GetXiu(13, 31) },
+		} {
+			parts = append(parts, func() (out string) {
+				defer func() {
+					if r := recover(); r != nil {
+						out = "PANIC"
+					}
+				}()
+				return f()
+			}())
+		}
+		return strings.Join(parts, "|")
+	case "AstroDirect": // the exported astronomy routines, called directly between calendar calls
+		jd := SolarUtil.GetJulianDay(y, c.B, c.C, 12, 0, 0) - 2451545 + float64(c.H-12)*0.7
+		return fmt.Sprintf("%.6f %.6f %.6f %.6f %.6f", ShouXingUtil.CalcQi(jd), ShouXingUtil.CalcShuo(jd), ShouXingUtil.QiAccurate2(jd), ShouXingUtil.DtT(jd), ShouXingUtil.SaLonT(float64(c.H)*0.2617993877991494+float64(y-2000)*6.283185307179586))
+	case "CivilUtil": // the exported civil helpers
+		y2 := y + []int{0, 1, -1, 4}[ref.Mod(c.H, 4)]
+		return fmt.Sprint(SolarUtil.GetDaysBetween(y, c.B, c.C, y2, 1+ref.Mod(c.B+c.H, 12), 1+ref.Mod(c.C+3, 28)), SolarUtil.GetDaysInYear(y, c.B, c.C), SolarUtil.GetWeek(y, c.B, c.C), SolarUtil.GetDaysOfMonth(y, c.B), SolarUtil.GetDaysOfYear(y),
+			SolarUtil.IsLeapYear(y), SolarUtil.GetWeeksOfMonth(y, c.B, c.H%7), SolarUtil.IsBefore(y, c.B, c.C, c.H, 0, 0, y2, c.B, c.C, 12, 0, 0))
 	case "TwiceInARow": // the same instant converted twice in a row, second answer reported
 		s := calendar.NewSolar(y, c.B, c.C, c.H, 7, 5)
 		_ = s.GetLunar().String()
@@ -216,7 +271,9 @@ func run(c call) (out string) {
 
 func genCall(t *rapid.T, base int) call {
 	k := rapid.SampledFrom(callKinds).Draw(t, "kind")
-	y := base + rapid.SampledFrom([]int{0, 0, 0, 1, -1, 2, 60, -400, 1000}).Draw(t, "dy")
+	// year distances: neighbours, the sexagenary cycle, typical cache sizes, and the spans at which 16-bit counters of
+	// days / lunations wrap (2^15, 2^16 days = 90, 179 years; 2^15, 2^16 lunations = 2649, 5299 years)
+	y := base + rapid.SampledFrom([]int{0, 0, 0, 1, -1, 2, 60, -400, 1000, 64, -64, 128, 90, 179, -179, 2649, -2650, 5298, 5299, -5298, -5299}).Draw(t, "dy")
 	if y < 2 {
 		y = 2
 	}
@@ -428,6 +485,30 @@ var heldObjects = ev.Register(&ev.P[heldCase]{
 		for _, h := range c.History {
 			run(h)
 		}
+		// setters, stepping and conversions applied to objects DERIVED from the held ones (each derived object is an
+		// object of its own: what is done to it is not seen by the one it came from)
+		func() {
+			defer func() { _ = recover() }()
+			for _, o := range []*calendar.Lunar{l.Next(0), l.GetSolar().GetLunar(), l.Next(1).Next(-1), s.GetLunar()} {
+				o.GetEightChar().SetSect(1)
+				_ = o.GetEightChar().GetYun(1).GetStartSolar()
+			}
+			for _, o := range []*calendar.Solar{s.NextDay(0), s.NextHour(0), s.Next(0, false), l.GetSolar().NextDay(0), s.NextMonth(0), s.NextYear(0)} {
+				_, _, _, _ = o.NextHour(1), o.NextDay(1), o.GetLunar().GetEightChar(), o.ToYmdHms()
+				o.GetLunar().GetEightChar().SetSect(1)
+			}
+			if q := l.GetPrevJieQi(); q != nil {
+				q.SetName("x")
+				q.SetSolar(s.NextDay(3))
+			}
+			if q := l.GetNextJie(); q != nil {
+				q.SetName("y")
+			}
+			if m2 := lm.Next(0); m2 != nil {
+				_, _ = m2.Next(1), m2.GetNineStar()
+			}
+			_, _ = ly.Next(0).GetMonths(), ly.Next(1)
+		}()
 		after := []string{digestString(dig.Of(ly, 1)), digestString(dig.Of(lm, 0)), digestString(dig.Of(l, 1)), digestString(dig.Of(s, 0))}
 		names := []string{"LunarYear", "LunarMonth", "Lunar", "Solar"}
 		for i := range before {
@@ -1292,7 +1373,7 @@ func TestC09(t *testing.T) {
 	}
 	// cold-start children: a fresh process whose first library calls run concurrently (lazy package-level
 	// initialisation shows only there)
-	for b := 0; b < ev.Pick(2, 12); b++ {
+	for b := 0; b < ev.Pick(6, 24); b++ {
 		var cases []concCase
 		ev.RapidRaw("gen-cold-batch", 1, func(t *rapid.T) {
 			c := genConc(t)
@@ -1300,6 +1381,13 @@ func TestC09(t *testing.T) {
 				c.Progs = append(c.Progs, c.Progs[len(c.Progs)%2])
 			}
 			c.Procs = 16
+			// the very first library call of every goroutine is the same cheap one (a table decoder, a civil helper, an
+			// astronomy routine, or a conversion): lazily built package-level tables are then first touched by all
+			// goroutines at once, not one after the other behind the year-cache lock
+			first := call{Kind: []string{"UtilDecoders", "CivilUtil", "AstroDirect", "SolarToLunar", "UtilDecoders", "Holiday"}[b%6], A: c.Shared, B: 1 + b%12, C: 1 + b%28, H: b % 24}
+			for g := range c.Progs {
+				c.Progs[g] = append([]call{first}, c.Progs[g]...)
+			}
 			cases = append(cases, c)
 		})
 		if len(cases) > 1 {
